@@ -392,6 +392,8 @@ def rule_presence(S, res, phases, cs):
             b = fg.bodies[bk]
             for (bi, p, none_t, some_t, via_try) in option_tests(b):
                 ty = p.get("ty", "").lstrip("&")
+                # `slot.as_ref().ok_or(..)?` tests an Option<&(bool, Mac)>
+                ty = ty.replace("core::option::Option<&mut ", "core::option::Option<").replace("core::option::Option<&", "core::option::Option<")
                 if not ty.startswith("core::option::Option<(bool, polytune::mpc::data_types::Mac)>"):
                     continue
                 nodes = fg.read_nodes(bk, p)
